@@ -314,3 +314,28 @@ func Sequential() {}
 // never changes a verdict): models satisfying it are tried first, e.g. to pick
 // a counterexample that does not depend on the value of a hash output.
 func Prefer(cond bool) {}
+
+// ---- file-system model (engine only; natively these operate on the real FS) ----
+
+// OnCrash registers the oracle that runs when the modelled process dies at a
+// crash point (engine only).
+func OnCrash(f func()) {}
+
+// FSPut creates a file with the given content.
+func FSPut(name string, content []byte) { _ = os.WriteFile(name, content, 0o644) }
+
+// FSIs reports whether the file exists with exactly this content.
+func FSIs(name string, content []byte) bool {
+	b, err := os.ReadFile(name)
+	return err == nil && string(b) == string(content)
+}
+
+// FSExists reports whether the file exists.
+func FSExists(name string) bool { _, err := os.Stat(name); return err == nil }
+
+// FSList lists the files the model knows (engine) / nothing natively.
+func FSList() []string { return nil }
+
+// FixRandom makes crypto/rand deliver constant bytes in the engine (for code
+// whose random draws only name things, e.g. temporary files).
+func FixRandom(b byte) {}
